@@ -1,11 +1,39 @@
 # -*- coding: utf-8 -*-
 
-from typing import Any, Dict, List, Optional
+from typing import Any, Dict, List, Mapping, Optional, Sequence
 
 from ..exc import ValidationError
-from ..lang.ast import Document, Field, OperationDefinition
+from ..lang.ast import (
+    Document,
+    FragmentDefinition,
+    OperationDefinition,
+    Selection,
+)
 from ..schema import Schema
-from .collect_fields import selected_fields
+from .collect_fields import collect_fields_untyped
+
+
+def _selections_depth(
+    selections: Sequence[Selection],
+    fragments: Mapping[str, FragmentDefinition],
+    variables: Mapping[str, Any],
+) -> int:
+    depth = 0
+    for fields in collect_fields_untyped(
+        selections, fragments, variables
+    ).values():
+        subselections = [
+            selection
+            for field in fields
+            if field.selection_set is not None
+            for selection in field.selection_set.selections
+        ]
+        if subselections:
+            depth = max(
+                depth,
+                1 + _selections_depth(subselections, fragments, variables),
+            )
+    return depth
 
 
 class MaxDepthValidationRule:
@@ -72,16 +100,9 @@ class MaxDepthValidationRule:
             ):
                 continue
 
-            paths = (
-                p
-                for f in op.selection_set.selections
-                if isinstance(f, Field)
-                for p in selected_fields(
-                    f, fragments=fragments, variables=variables, maxdepth=None,
-                )
+            depth = _selections_depth(
+                op.selection_set.selections, fragments, variables
             )
-
-            depth = max(x.count("/") + 1 for x in paths)
 
             if depth > self.max_depth:
                 errors.append(
